@@ -159,6 +159,10 @@ class Flow:
                     b = _base_name(sub)
                     if b is not None and b not in ("self", "cls"):
                         self._add(Def(b, n, "mutate", ast.Tuple(elts=[v, sub], ctx=ast.Load()), stmt=st))
+        if isinstance(st, ast.Expr) and isinstance(st.value, ast.Call) and isinstance(st.value.func, ast.Attribute) \
+                and isinstance(st.value.func.value, ast.Name) and st.value.func.value.id not in ("self", "cls"):
+            # `obj.method(...)` as a statement exists for its side effect: the object is no longer the value it was bound to
+            self._add(Def(st.value.func.value.id, n, "mutate", st.value, stmt=st))
         for call in [c for c in ast.walk(st) if isinstance(c, ast.Call)]:
             f = call.func
             if isinstance(f, ast.Attribute) and f.attr in MUTATING_METHODS and isinstance(f.value, ast.Name):
